@@ -12,7 +12,8 @@
    after any accepted update and after any merge of two non-empty sketches -- C18_kk_*; see Regression_ebpps.v for the
    registered finding where they differ). *)
 From Coq Require Import ZArith List Bool QArith Qround Lia Lqa.
-From DS Require Import RunnerLib EbppsDefs EbppsProofs EbppsSketchProofs EbppsHistProofs EbppsEqualProofs EbppsMain.
+From DS Require Import RunnerLib EbppsDefs EbppsProofs EbppsSketchProofs EbppsHistProofs EbppsEqualProofs EbppsMain
+                       EbppsSerdeProofs EbppsEqualMerge.
 Import ListNotations.
 Local Open Scope Q_scope.
 
@@ -123,6 +124,38 @@ Section AnyItems.
   Theorem C18_roundtrip : forall h s, h_wf Item h -> cs_ok s ->
     let sm := sk_smp (run h s) in reread QOps Item sm = Some sm.
   Proof. exact (main_roundtrip Item). Qed.
+
+  (* ... and so does the whole sketch (empty sketches are written as k only): what step 7 of the protocol model runs *)
+  Theorem C18_sketch_roundtrip : forall h s, h_wf Item h -> cs_ok s ->
+    sk_reread QOps Item (run h s) = Some (run h s).
+  Proof. exact (sketch_roundtrip Item). Qed.
+  (* a non-empty sketch has 1 <= c <= k, and no returned sample is larger than k *)
+  Theorem C18_c_bounds : forall h s, h_wf Item h -> cs_ok s -> 0 < h_W Item h ->
+    1 <= sc (sk_smp (run h s)) /\ sc (sk_smp (run h s)) <= inject_Z (h_kk Item h).
+  Proof. exact (main_c_bounds Item). Qed.
+
+  Theorem C18_result_at_most_k : forall h s, h_wf Item h -> cs_ok s -> 0 < h_W Item h ->
+    let sk := run h s in
+    (length (fst (get_result QOps Item (sk_smp sk) (rest h s))) <= Z.to_nat (h_kk Item h))%nat.
+  Proof. exact (main_result_le_k Item). Qed.
+
+  (* equal weights across a merge: two streams with n1 + n2 <= min(k1, k2) -- every item of both is kept, c = n1 + n2,
+     and neither the updates nor the merge consume a random draw *)
+  Theorem C18_equal_weights_merge_keeps_all : forall k1 k2 w0 ups1 ups2 (s : cs QOps),
+    (1 <= k1)%Z -> (1 <= k2)%Z -> 0 < w0 ->
+    Forall (fun u => accepted (snd u) = true -> snd u == w0) ups1 ->
+    Forall (fun u => accepted (snd u) = true -> snd u == w0) ups2 ->
+    (Z.of_nat (length (acc_items Item ups1) + length (acc_items Item ups2)) <= Z.min k1 k2)%Z ->
+    exists a b r,
+      run_updates QOps Item (sketch_empty QOps Item k1) ups1 s = (a, s) /\
+      run_updates QOps Item (sketch_empty QOps Item k2) ups2 s = (b, s) /\
+      merge QOps Item a b s = (r, s) /\
+      spart (sk_smp r) = None /\
+      sc (sk_smp r) == inject_Z (Z.of_nat (length (acc_items Item ups1) + length (acc_items Item ups2))) /\
+      sk_n r = Z.of_nat (length (acc_items Item ups1) + length (acc_items Item ups2)) /\
+      (sdata (sk_smp r) = acc_items Item ups1 ++ acc_items Item ups2 \/
+       sdata (sk_smp r) = acc_items Item ups2 ++ acc_items Item ups1).
+  Proof. exact (equal_weights_merge_keeps_all Item). Qed.
 End AnyItems.
 
 (* ---- non-vacuity: a concrete history with updates, a refused and an ignored weight, and a merge ---- *)
@@ -154,7 +187,8 @@ Proof.
   destruct (C18_equal_weights_keep_all Z 4 (7#3) [(5%Z, 7#3); (6%Z, 0); (7%Z, 7#3); (8%Z, 14#6)] ex_cs) as (sk & E & D & _).
   - lia.
   - reflexivity.
-  - repeat constructor; intro; reflexivity.
+  - repeat (apply Forall_cons; [cbn [snd]; first [intros _; reflexivity | intro H; vm_compute in H; discriminate H]|]).
+    apply Forall_nil.
   - cbn. lia.
   - exists sk. split; [exact E|exact D].
 Qed.
@@ -176,3 +210,7 @@ Print Assumptions C18_iteration.
 Print Assumptions C18_equal_weights_keep_all.
 Print Assumptions C18_merge.
 Print Assumptions C18_roundtrip.
+Print Assumptions C18_sketch_roundtrip.
+Print Assumptions C18_c_bounds.
+Print Assumptions C18_result_at_most_k.
+Print Assumptions C18_equal_weights_merge_keeps_all.
